@@ -1453,7 +1453,15 @@ func (ro *RedisOutput) bisyncStartPoint(ctx context.Context, runIDs []string) (S
 		frontier, err := checkpoint.RebuildBisyncFrontier(snapshot, records)
 		bisyncFrontierRebuildGauge.Set(time.Since(begin).Seconds(), ro.cfg.InputName)
 		if err != nil {
-			return sp, 0, false, err
+			if !errors.Is(err, checkpoint.ErrBisyncJournalGap) {
+				return sp, 0, false, err
+			}
+			// No frontier snapshot yet and the journal does not start at the first unit:
+			// parallel lanes committed a later unit before an earlier one and the process
+			// stopped in between. No contiguous prefix exists, so resume from the root
+			// checkpoint (the later units are replayed) instead of refusing to start.
+			ro.logger.Warnf("bisync startpoint parallel journal gap, fallback to root checkpoint: checkpoint(%s), err(%v)", checkpointName, err)
+			frontier = nil
 		}
 		if frontier != nil && frontier.UnitSeq > 0 {
 			ro.clearBisyncFrontierMiss(rootStartPoint.RunId)
